@@ -383,3 +383,41 @@ Theorem product_space_operator_empty_row_refuted :
    /\ parts_after (pso_call junkQ ents [sp3; sp3] [sp3; sp3] [0%nat; 1%nat] None
                   [(sp3, q3 1 2 3); (sp3, q3 4 5 6)]) = Some [q3 2 4 6; q3 0 0 0]).
 Proof. exact pso_zero_row_old_out_survives. Qed.
+
+(* BroadcastOperator(op_0, ..., op_{n-1}) is the ProductSpaceOperator with entries (i, 0, op_i):
+   its entry list meets the hypotheses of the two theorems above whenever every op_i is a
+   tree of call_protocol_all_trees from the common domain (likewise Reduction / Diagonal). *)
+Theorem broadcast_operator_is_a_product_space_operator :
+  forall ro dom (ts : list optup),
+  Forall (op_ok ro) ts -> Forall (fun t => snd (fst (fst t)) = dom) ts ->
+  Forall (ent_ok ro [dom] (map (fun t => snd (fst t)) ts)) (bsent ts) /\
+  map fst (bsent ts) = broadcast_entries (map (fun t => fst (fst (fst t))) ts).
+Proof. intros ro dom ts H1 H2. split; [exact (broadcast_ent_ok ro dom ts H1 H2) | exact (bsent_entries ts)]. Qed.
+
+(* non-vacuity of the product-space hypotheses: a concrete store, argument and output *)
+Example product_space_hypotheses_hold :
+  let sp := (2, 0)%nat in
+  let s : @store (option R) := [(sp, cl [1%R; 2%R]); (sp, cl [3%R; 4%R]); (sp, [None; None]); (sp, cl [0%R; 0%R])] in
+  let se : list sent := [({| en_row := 0; en_col := 1; en_op := Op cls_ScalingOperator sp (RSp sp) [Some 2%R] [] [] [] |},
+                          fun d => rscal 2 d)] in
+  Forall (ent_ok [] [sp; sp] [sp; sp]) se /\
+  outs_static [] [sp; sp] [0%nat; 1%nat] [2%nat; 3%nat] /\
+  args_ok [] [sp; sp] [0%nat; 1%nat] (fun j => nth j [[1%R; 2%R]; [3%R; 4%R]] []) s /\
+  (forall o, In o [3%nat] -> zero_safe s o).
+Proof.
+  cbv zeta. splits.
+  - constructor; [|constructor]. exists (2, 0)%nat, (2, 0)%nat. splits; [reflexivity | reflexivity | apply D_Scaling].
+  - unfold outs_static. splits.
+    + repeat constructor; cbn; intuition lia.
+    + reflexivity.
+    + intros o I J. cbn in I, J. lia.
+    + intros o _ [].
+  - unfold args_ok. splits.
+    + intros i sp d E. destruct i as [|[|[|[|i]]]]; cbn in E; try (injection E as <- <-; reflexivity).
+      destruct i; discriminate.
+    + intros i sp d [].
+    + intros j xj dj Ej Ed. destruct j as [|[|j]]; cbn in Ej, Ed; try (injection Ej as <-; injection Ed as <-; reflexivity).
+      destruct j; discriminate.
+    + reflexivity.
+  - intros o [<-|[]]. right; right. exists (2, 0)%nat, [0%R; 0%R]. reflexivity.
+Qed.
